@@ -21,6 +21,10 @@ M = {
     "child_not_credited": ("core.py", "            # adjust self's capital\n            self.adjust(amount, update=False, flow=True)", "            # adjust self's capital\n            self.adjust(amount, update=False, flow=False)"),
     "base_uses_value": ("core.py", "                bottom = self._last_value + self._net_flows\n", "                bottom = self._value + self._net_flows\n"),
     "or_shortcircuit": ("algos.py", "            tempRes = algo(target)\n            res = res | tempRes\n", "            res = res or algo(target)\n"),
+    "hasdata_gt": ("algos.py", "        cnt = cnt[cnt >= self.min_count]", "        cnt = cnt[cnt > self.min_count]"),
+    "selectn_round": ("algos.py", "            keep_n = int(self.n * len(stat))", "            keep_n = int(round(self.n * len(stat)))"),
+    "selectall_ge": ("algos.py", "                target.temp[\"selected\"] = list(universe[universe > 0].index)\n        return True\n\n\nclass SelectThese", "                target.temp[\"selected\"] = list(universe[universe >= 0].index)\n        return True\n\n\nclass SelectThese"),
+    "totalreturn_end_now": ("algos.py", "        prc = target.universe.loc[t0 - self.lookback : t0, selected]\n        target.temp[\"stat\"] = prc.calc_total_return()", "        prc = target.universe.loc[t0 - self.lookback :, selected]\n        target.temp[\"stat\"] = prc.calc_total_return()"),
     "pre_f01": ("core.py", "def _w(series):", "def _w(series):\n    return series.values\n\n\ndef _w_orig(series):"),
 }
 
